@@ -27,6 +27,25 @@ def reduce_pcs(pcs):
     return set(sets)
 
 
+def raise_condition(ev, exc):
+    """the condition under which `exc` is raised: OR over the pruned raise sites of (path condition AND guard), after merging
+    sites that differ only in the polarity of one path literal (the same raise reached through both arms of an earlier `if`)"""
+    hits = [r for r in ev.raises if r['exc'] == exc and r['polarity'] is False]
+    hits += [dict(r, guard=ev.negate(r['guard'])) for r in ev.raises if r['exc'] == exc and r['polarity'] is True]
+    if not hits: return None
+    groups = {}
+    for r in hits: groups.setdefault(repr(tkey(r['guard'])), []).append(r)
+    disj = []
+    for k, rs in groups.items():
+        lits = {}
+        for r in rs:
+            for g, pol in r['pc']: lits[(repr(tkey(g)), pol)] = (g, pol)
+        for pcset in reduce_pcs([r['pc'] for r in rs]):
+            conj = [lits[x][0] if lits[x][1] else ev.negate(lits[x][0]) for x in sorted(pcset)] + [rs[0]['guard']]
+            disj.append(ev.mkbool('and', conj))
+    return ev.mkbool('or', disj)
+
+
 def run(rep, prog, tier):
     from .hidden import no_hidden_state
     rep.rule('R19.state', 'no hidden state in the anchored modules: no function writes a module-level object, no caching decorator / cached property')
@@ -110,17 +129,16 @@ def invariants(rep, prog):
                                "len(set(self.branch_ids)) != len(self.branch_ids)", "len(set(self.branch_ids)) < len(self.branch_ids)"],
     }
     for exc, forms in want.items():
-        hits = [r for r in ev.raises if r['exc'] == exc and r['polarity'] is False]
-        ok = None; why = f'no pruned raise of {exc} found'
-        for r in hits:
-            for fsrc in forms:
-                if same(r['guard'], evs.truth(spec(evs, fsrc, env, m))) and not r['pc']:
-                    ok = True; why = f'raises {exc} exactly under `{fsrc}` on every path'
-            if ok is None:
-                ok = None if has_opaque(r['guard']) else False
-                why = f"raises {exc} under {r['guard']!r:.200} (path condition {r['pc']!r:.80})"
-        if not hits:
-            ok = False
+        cond = raise_condition(ev, exc)
+        if cond is None:
+            rep.ob('R19.invariants', f'Network:{exc}', False, f'no pruned raise of {exc} found', site); continue
+        ok = None; why = ''
+        for fsrc in forms:
+            if same(cond, evs.truth(spec(evs, fsrc, env, m))):
+                ok = True; why = f'raises {exc} exactly under `{fsrc}`'
+        if ok is None:
+            ok = None if has_opaque(cond) else False
+            why = f"raises {exc} under {cond!r:.300}"
         rep.ob('R19.invariants', f'Network:{exc}', ok, why, site)
     # the derived views the guards read
     ev2 = Evaluator(prog)
@@ -255,7 +273,7 @@ ID_EXCEPTIONS = {
 DELEGATES = QUERY_PREFIX + ('index', 'get_element')
 
 
-def _validates(node, idname) -> str | None:
+def _validates(node, idname, follow=None) -> str | None:
     """does this statement/expression validate identifier `idname`? returns a reason or None"""
     for n in ast.walk(node):
         if isinstance(n, ast.Subscript) and isinstance(n.ctx, ast.Load) and idname in names_in(n.slice):
@@ -268,7 +286,79 @@ def _validates(node, idname) -> str | None:
                 fn = n.func.attr if isinstance(n.func, ast.Attribute) else getattr(n.func, 'id', '')
                 if fn.startswith(DELEGATES) or fn in DELEGATES:
                     return f'delegated to {fn}()'
+                if follow is not None:
+                    r = follow(n, idname)
+                    if r: return r
     return None
+
+
+def _path_validates(path, idname, follow=None):
+    v = None
+    for step in path:
+        if step[0] == 'guard':
+            tst, val = step[1], step[2]
+            if isinstance(tst, ast.Compare) and len(tst.ops) == 1 and idname in names_in(tst):
+                op = tst.ops[0]
+                other = ast.unparse(tst.comparators[0] if idname in names_in(tst.left) else tst.left)
+                if (isinstance(op, ast.Eq) and val) or (isinstance(op, ast.NotEq) and not val):
+                    if 'zero' in other or 'ground' in other: v = f'equals the reference label ({other})'
+                if (isinstance(op, ast.In) and val) or (isinstance(op, ast.NotIn) and not val):
+                    if ast.unparse(tst.left) == idname: v = f'membership established ({ast.unparse(tst)[:50]})'
+            if v is None and isinstance(tst, ast.Call) and val:
+                fnm = tst.func.attr if isinstance(tst.func, ast.Attribute) else getattr(tst.func, 'id', '')
+                argn = set()
+                for a_ in list(tst.args) + [k_.value for k_ in tst.keywords]: argn |= names_in(a_)
+                if idname in argn and ('zero' in fnm or 'ground' in fnm or 'reference' in fnm):
+                    v = f'is the reference node ({fnm}())'
+        elif step[0] in ('stmt', 'return', 'loop'):
+            node = step[1]        # a loop validates like the comprehension it stands for (iterable and body)
+            v = v or _validates(node, idname, follow)
+        if v: break
+    return v
+
+
+def _unvalidated_path(fn, idname, follow=None):
+    """first returning path of `fn` on which `idname` is never validated (None when every path validates)"""
+    allp = list(paths(fn.body))
+    for path in allp:
+        if path[-1][0] != 'return': continue
+        if not _path_validates(path, idname, follow):
+            return path, allp
+    return None, allp
+
+
+def _follower(prog, m, cls, depth=0, seen=()):
+    """delegation to a helper of the same class / module counts when the helper validates the parameter
+    that receives the identifier on each of its returning paths"""
+    def follow(call, idname):
+        if depth >= 3: return None
+        target, is_method = None, False
+        f = call.func
+        if isinstance(f, ast.Attribute) and isinstance(f.value, ast.Name) and f.value.id == 'self' and cls is not None:
+            for cm, cn in prog.mro(m, cls):
+                for x in cn.body:
+                    if isinstance(x, ast.FunctionDef) and x.name == f.attr: target, is_method = (cm, x), True; break
+                if target: break
+        elif isinstance(f, ast.Name):
+            r = prog.resolve(m, f.id)
+            if r and r[0] == 'func': target = (r[1], r[2])
+        if target is None or id(target[1]) in seen: return None
+        tm, tf = target
+        params = [a.arg for a in tf.args.args][1 if is_method else 0:]
+        pname = None
+        for i, a in enumerate(call.args):
+            if isinstance(a, ast.Name) and a.id == idname and i < len(params): pname = params[i]
+        for k in call.keywords:
+            if isinstance(k.value, ast.Name) and k.value.id == idname and k.arg in params: pname = k.arg
+        if pname is None: return None
+        try:
+            bad, allp = _unvalidated_path(tf, pname, _follower(prog, tm, cls if is_method else None, depth + 1, seen + (id(tf),)))
+        except TooManyPaths:
+            return None
+        if bad is None and any(p[-1][0] == 'return' for p in allp):
+            return f'delegated to helper {tf.name}() which validates `{pname}` on each returning path'
+        return None
+    return follow
 
 
 def query_ids(rep, prog):
@@ -291,35 +381,9 @@ def query_ids(rep, prog):
                 site = prog.site(m, fn)
                 n += 1
                 try:
-                    allp = list(paths(fn.body))
+                    bad, allp = _unvalidated_path(fn, idname, _follower(prog, m, c))
                 except TooManyPaths:
                     rep.ob('R19.id', key, None, 'too many paths', site); continue
-                bad = None
-                for path in allp:
-                    if path[-1][0] != 'return': continue
-                    v = None
-                    for step in path:
-                        if step[0] == 'guard':
-                            tst, val = step[1], step[2]
-                            if isinstance(tst, ast.Compare) and len(tst.ops) == 1 and idname in names_in(tst):
-                                op = tst.ops[0]
-                                other = ast.unparse(tst.comparators[0] if idname in names_in(tst.left) else tst.left)
-                                if (isinstance(op, ast.Eq) and val) or (isinstance(op, ast.NotEq) and not val):
-                                    if 'zero' in other or 'ground' in other: v = f'equals the reference label ({other})'
-                                if (isinstance(op, ast.In) and val) or (isinstance(op, ast.NotIn) and not val):
-                                    if ast.unparse(tst.left) == idname: v = f'membership established ({ast.unparse(tst)[:50]})'
-                            if v is None and isinstance(tst, ast.Call) and val:
-                                fnm = tst.func.attr if isinstance(tst.func, ast.Attribute) else getattr(tst.func, 'id', '')
-                                argn = set()
-                                for a_ in list(tst.args) + [k_.value for k_ in tst.keywords]: argn |= names_in(a_)
-                                if idname in argn and ('zero' in fnm or 'ground' in fnm or 'reference' in fnm):
-                                    v = f'is the reference node ({fnm}())'
-                        elif step[0] in ('stmt', 'return', 'loop'):
-                            node = step[1]        # a loop validates like the comprehension it stands for (iterable and body)
-                            v = v or _validates(node, idname)
-                        if v: break
-                    if not v:
-                        bad = path; break
                 if bad is None:
                     rep.ob('R19.id', key, True, f'{sum(1 for p in allp if p[-1][0] == "return")} returning path(s), identifier validated on each', site)
                 else:
